@@ -123,6 +123,7 @@ fn dispatch(st: &mut State, line: &str) -> String {
         "aeadopen" => misc::cmd_aeadopen(rest),
         "stats" => misc::cmd_stats(rest),
         "merge" => misc::cmd_merge(rest),
+        "mergebig" => misc::cmd_mergebig(rest),
         "squeue" => misc::cmd_squeue(rest),
         "grease" => misc::cmd_grease(rest),
         "serve" => server::cmd_serve(st, rest),
